@@ -100,6 +100,7 @@ type Unit struct {
 	params   map[string]Val
 	errs     []string // out-of-subset messages
 	arith    bool
+	nowrap   bool
 	abstract bool // tolerate unsupported instructions by havoc (safety sweep mode)
 	depthMax int
 	lockLog  []string
@@ -1738,6 +1739,15 @@ func (u *Unit) binop(f *Frame, st *State, op token.Token, a, b Val, resTy types.
 	uns := isUnsigned(ty)
 	w := pow2(intBits(ty))
 	arith := func(t string) string {
+		if uns && u.nowrap {
+			// the unit claims that unsigned arithmetic never wraps: prove it, then use the plain value
+			if f != nil && !f.pure {
+				n := u.em.define("uw", "Int", t)
+				u.oblige(f, st, "wrap", u.exprText(pos, op.String()), fmt.Sprintf("(and (<= 0 %s) (< %s %s))", n, n, w), pos)
+				return n
+			}
+			return t
+		}
 		if uns {
 			return fmt.Sprintf("(mod %s %s)", t, w)
 		}
